@@ -10,7 +10,7 @@ THEOREMS = [_T + n for n in [
     "remote_ip_source", "remote_ip_valid_or_socket", "remote_ip_spec_partial", "remote_ip_spec_refuted",
     "protocol_http_or_https", "protocol_observed", "unapply_restores", "ctx_restored_after_run", "no_leak", "no_leak_trace",
     "leak_without_finish",
-    "remote_ip_numeric_trace", "remote_ip_numeric", "isValidIp_numeric", "remote_ip_allowed",
+    "remote_ip_numeric_trace", "remote_ip_numeric", "isValidIp_numeric", "remote_ip_allowed", "finish_raises_keeps_rewrite",
 ]]
 TRUSTED = [
     "libc getaddrinfo(AI_NUMERICHOST) is a parameter (`gai`) of the model of is_valid_ip (C32.isValidIp: the pre-checks of the fixed "
@@ -23,7 +23,8 @@ TRUSTED = [
     "core/faketransport.py + core/vloop.py (deterministic transport and clock under the real HTTP1ServerConnection)",
 ]
 ASSUMPTIONS = [
-    "the server's `protocol` argument is None, 'http' or 'https' and the stream is an AF_INET/AF_INET6 stream (socket address is an IP)",
+    "the server's `protocol` argument is None, 'http' or 'https'; for a stream that is not AF_INET/AF_INET6 (unix socket) 'the socket "
+    "address' is the documented stand-in '0.0.0.0'",
     "request header blocks are syntactically valid (field names are tokens, values are field-values); invalid blocks end the "
     "connection with 400 before the proxy adapter runs",
     "the raw resolver outcome is this platform's (Linux/glibc; interface `lo` exists, so zone ids are exercised); getaddrinfo raising a "
@@ -34,16 +35,17 @@ RULE = ("1-5 keep-alive requests per connection, each with 0-4 proxy header line
         "numeric-host boundary forms (inet_aton short/octal/hex forms and overflows, IPv6 group counts and `::` placement, embedded quads, "
         "zone ids: index, interface, alias-label trick, junk), 1-2 character mutations of all of these, garbage, "
         "lists with trusted entries and inner spaces, empty values, mixed-case/duplicate/folded header names; GET and POST, immediate "
-        "and delayed responses, random segmentation; non-trivial = >=2 requests on the connection of which >=1 changes remote_ip or protocol")
+        "and delayed responses, random segmentation; HTTP/1.1, HTTP/1.0 with and without keep-alive (requests after the one that ends "
+        "the connection must not be served), AF_INET / AF_INET6 / unix-socket contexts, application callbacks and handlers that raise; non-trivial = >=2 requests on the connection of which >=1 changes remote_ip or protocol")
 EXHAUSTIVE = {"quick": False, "thorough": False}
 CLAUSE_CAVEATS = [
     "'numeric IP address' = Spec.numericIP (inet(3) numbers-and-dots forms, RFC 4291 IPv6 text, optional RFC 4007 zone id); the Lean "
     "theorems reach it from the code only through the ASSUMED resolver contract ResolverNumeric (getaddrinfo(AI_NUMERICHOST) accepts "
     "nothing but numeric-host text once is_valid_ip's pre-checks passed) — libc is not modelled. The oracle does not depend on that "
     "assumption (it applies Spec.numericIP to the observed remote_ip), but it sees only this platform's resolver",
-    "_ProxyAdapter.finish runs delegate.finish() before the restore: a delegate that raises there leaves the context rewritten; the "
-    "connection is then closed (no later request), which is not modelled or generated. Unix-socket contexts, HTTP/1.0 keep-alive and "
-    "unparsable header blocks in mid-connection are not generated",
+    "a delegate that raises in _ProxyAdapter.finish leaves the context rewritten (modelled as event finishRaises, generated with a "
+    "raising callable); that no later request is served on that connection is the tie's observation (request count + leak oracle), "
+    "not a Lean theorem — the closing is _server_request_loop's (C05). Unparsable header blocks in mid-connection are not generated",
 ]
 CLAUSES = {
     "remote_ip is a numeric IP taken from the proxy headers only when they supply one, X-Real-Ip before the rightmost untrusted "
@@ -152,7 +154,8 @@ def _req(rng, trusted):
     if lines and lines[0][0] in " \t":
         lines = lines[1:]
     post = rng.random() < 0.25
-    return {"lines": lines, "body": rng.choice([0, 1, 5, 70]) if post else None, "delay": rng.random() < 0.3}
+    return {"lines": lines, "body": rng.choice([0, 1, 5, 70]) if post else None, "delay": rng.random() < 0.3,
+            "version": rng.choice(["1.1"] * 8 + ["1.0ka", "1.0ka", "1.0"]), "raises": rng.random() < 0.06}
 
 
 def gen_cases(rng, tier):
@@ -163,16 +166,20 @@ def gen_cases(rng, tier):
         yield {"sock": rng.choice(SOCKS), "protocol": rng.choice([None, None, "http", "https"]), "trusted": trusted,
                "reqs": [_req(rng, trusted) for _ in range(nreq)], "kind": rng.choice(["callable", "callable", "app"]),
                "seg": rng.choice([0, 0, 1, 7, 19, 64]), "pipelined": rng.random() < 0.4,
-               "end": rng.choice(["eof", "eof", "close-header", "abort-in-body"])}
+               "end": rng.choice(["eof", "eof", "close-header", "abort-in-body"]),
+               "family": rng.choice(["inet"] * 6 + ["inet6", "inet6", "unix", "unix"])}
 
 
 # ----------------------------------------------------------------------------------------------- implementation
 def _raw(req, k, last_close):
     body = req["body"]
-    head = "%s /r%d HTTP/1.1\r\nHost: example.com\r\n" % ("POST" if body is not None else "GET", k)
+    ver = req.get("version", "1.1")
+    head = "%s /r%d HTTP/%s\r\nHost: example.com\r\n" % ("POST" if body is not None else "GET", k, ver[:3])
+    if ver == "1.0ka":
+        head += "Connection: keep-alive\r\n"
     if body is not None:
         head += "Content-Length: %d\r\n" % body
-    if last_close:
+    if last_close and ver != "1.0ka":
         head += "Connection: close\r\n"
     head += "".join(l + "\r\n" for l in req["lines"]) + "\r\n"
     return head.encode("latin-1") + (b"b" * body if body else b"")
@@ -192,10 +199,13 @@ def _serve(case, reqs, end):
             obs.append([request.remote_ip, request.protocol, ctx.remote_ip, ctx.protocol])
 
         delays = {("/r%d" % k): r["delay"] for k, r in enumerate(reqs)}
+        raises = {("/r%d" % k): r.get("raises", False) for k, r in enumerate(reqs)}
 
         if case["kind"] == "callable":
             def cb(request):
                 record(request)
+                if raises.get(request.path):
+                    raise RuntimeError("application callback failed")     # inside _ProxyAdapter.finish: _cleanup() is skipped
 
                 def respond():
                     request.connection.write_headers(httputil.ResponseStartLine("HTTP/1.1", 200, "OK"),
@@ -212,13 +222,24 @@ def _serve(case, reqs, end):
             class H(web.RequestHandler):
                 async def get(self):
                     record(self.request)
+                    if raises.get(self.request.path):
+                        raise RuntimeError("handler failed")      # RequestHandler answers 500; the connection goes on
                     if delays.get(self.request.path):
                         await asyncio.sleep(1.0)
                 post = get
             server = HTTPServer(web.Application([(r"/.*", H)]), xheaders=True, trusted_downstream=case["trusted"],
                                 protocol=case["protocol"])
         s = faketransport.FakeStream(lp.io_loop)
-        server.handle_stream(s, (case["sock"], 4321))
+        import socket as _socket
+        fam = case.get("family", "inet")
+        if fam == "inet6":
+            s._fd.family = _socket.AF_INET6
+            server.handle_stream(s, (case["sock"], 4321, 0, 0))
+        elif fam == "unix":
+            s._fd.family = _socket.AF_UNIX
+            server.handle_stream(s, "")              # what accept() returns for an unnamed unix peer on Linux
+        else:
+            server.handle_stream(s, (case["sock"], 4321))
         lp.drain()
         conn = next(iter(server._connections))
         ctx = conn.context
@@ -251,9 +272,9 @@ def run_impl(case):
     obs, mid, final, nresp = _serve(case, case["reqs"], case["end"])
     solo = []
     for r in case["reqs"]:
-        o, _, _, _ = _serve({**case, "pipelined": False, "seg": 0}, [{**r, "delay": False}], "eof")
+        o, _, _, _ = _serve({**case, "pipelined": False, "seg": 0}, [{**r, "delay": False, "raises": False}], "eof")
         solo.append(o[0][:2] if o else None)
-    cands = set([case["sock"]])
+    cands = set([_sock(case)])
     for r in case["reqs"]:
         h = HTTPHeaders.parse("".join(l + "\r\n" for l in r["lines"]))
         for name in ("X-Forwarded-For", "X-Real-Ip"):
@@ -287,27 +308,53 @@ def _proto(case):
     return case["protocol"] or "http"
 
 
-def _expected_count(case):
-    """requests that reach the handler: all of them, except a last one whose body is cut short"""
+def _sock(case):
+    """the socket address as _HTTPRequestContext sees it: address[0] for AF_INET/AF_INET6, the documented fake otherwise"""
+    return "0.0.0.0" if case.get("family", "inet") == "unix" else case["sock"]
+
+
+def _raising(case, r):
+    """a plain callable that raises does so inside _ProxyAdapter.finish -> the connection is closed (a RequestHandler
+    that raises is answered with 500 by tornado.web and the connection goes on)"""
+    return bool(r.get("raises")) and case["kind"] == "callable"
+
+
+def _reached(case):
+    """requests the server starts to read: up to the first one after which the connection is not kept alive"""
     n = len(case["reqs"])
-    if case["end"] == "abort-in-body" and case["reqs"] and case["reqs"][-1]["body"]:
-        n -= 1
+    for k, r in enumerate(case["reqs"]):
+        ver = r.get("version", "1.1")
+        if ver == "1.0" or _raising(case, r) or (k == n - 1 and case["end"] == "close-header" and ver != "1.0ka"):
+            return k + 1
     return n
 
 
 def _aborted(case):
-    return bool(case["end"] == "abort-in-body" and case["reqs"] and case["reqs"][-1]["body"])
+    return bool(case["end"] == "abort-in-body" and case["reqs"] and case["reqs"][-1]["body"] and _reached(case) == len(case["reqs"]))
+
+
+def _expected_count(case):
+    """requests that reach the handler: the reached ones, except a last one whose body is cut short"""
+    return _reached(case) - (1 if _aborted(case) else 0)
+
+
+def _ends_raising(case):
+    k = _reached(case) - 1
+    return k >= 0 and _raising(case, case["reqs"][k]) and not _aborted(case)
 
 
 def model_requests(case, impl):
     evs = []
-    for k, r in enumerate(case["reqs"]):
+    m = _reached(case)
+    for k, r in enumerate(case["reqs"][:m]):
         evs.append([atom("H"), r["lines"]])
-        if k == len(case["reqs"]) - 1 and _aborted(case):
+        if k == m - 1 and _aborted(case):
             evs.append([atom("C")])          # the peer goes away inside the body: on_connection_close
+        elif _raising(case, r):
+            evs.append([atom("X")])          # delegate.finish() raises: no restore; the connection is closed
         else:
             evs.append([atom("F")])
-    return [line(ID, "trace", case["sock"], _proto(case), case["trusted"], impl["gai"], evs),
+    return [line(ID, "trace", _sock(case), _proto(case), case["trusted"], impl["gai"], evs),
             line(ID, "valid", impl["cands"], impl["gai"])]
 
 
@@ -327,7 +374,7 @@ def _py(reply):
 
 def model_result(case, replies):
     steps = _py(replies[0])[0]
-    orig = [case["sock"], _proto(case)]
+    orig = [_sock(case), _proto(case)]
     obs = []
     n = _expected_count(case)
     for o, ip, proto in steps:
@@ -350,7 +397,7 @@ def _seen_ips(impl):
 
 def spec_requests(case, impl):
     # neither line carries anything computed by is_valid_ip
-    return [line(ID, "spec", case["sock"], case["trusted"], [r["lines"] for r in case["reqs"]]),
+    return [line(ID, "spec", _sock(case), case["trusted"], [r["lines"] for r in case["reqs"]]),
             line(ID, "numeric", _seen_ips(impl))]
 
 
@@ -365,7 +412,7 @@ def spec_violation(case, impl, replies):
         ip, proto = o[0], o[1]
         if proto not in ("http", "https"):
             return "request %d: protocol %r" % (i, proto)
-        if ip != case["sock"] and numeric.get(ip) is not True:
+        if ip != _sock(case) and numeric.get(ip) is not True:
             return "request %d: remote_ip %r is neither the socket address nor a numeric IP address" % (i, ip)
         if impl["solo"][i] is not None and [ip, proto] != impl["solo"][i]:
             return "request %d saw %r but %r on a fresh connection: state leaked from an earlier request" % (i, [ip, proto], impl["solo"][i])
@@ -374,19 +421,27 @@ def spec_violation(case, impl, replies):
             if w[1] is True:
                 return "request %d: every X-Forwarded-For entry is a trusted proxy; remote_ip %r, socket address expected" % (i, ip)
             return "request %d: remote_ip %r, the headers call for %s" % (i, ip, " or ".join(repr(x) for x in w[0]))
-    if impl["final"] != [case["sock"], _proto(case)] or (not _aborted(case) and impl["mid"] != [case["sock"], _proto(case)]):
+    if _ends_raising(case):
+        return None       # the connection was closed by the failing callback: there is no later request to protect
+    if impl["final"] != [_sock(case), _proto(case)] or (not _aborted(case) and impl["mid"] != [_sock(case), _proto(case)]):
         return "connection context not restored after the last request: %r / %r" % (impl["mid"], impl["final"])
     return None
 
 
 def nontrivial(case, impl):
-    return len(impl["obs"]) >= 2 and any(o[:2] != [case["sock"], _proto(case)] for o in impl["obs"])
+    return len(impl["obs"]) >= 2 and any(o[:2] != [_sock(case), _proto(case)] for o in impl["obs"])
 
 
 def stats(case, impl):
     out = ["reqs:%d" % len(case["reqs"]), "kind:" + case["kind"], "end:" + case["end"], "pipelined:%s" % case["pipelined"]]
+    out.append("family:" + case.get("family", "inet"))
+    out.append("served:%d/%d" % (len(impl["obs"]), len(case["reqs"])))
+    for r in case["reqs"][:_reached(case)]:
+        out.append("version:" + r.get("version", "1.1"))
+    if _ends_raising(case):
+        out.append("connection ended by a callback raising in finish (context left rewritten)")
     for o in impl["obs"]:
-        out.append("ip:" + ("socket" if o[0] == case["sock"] else "header"))
+        out.append("ip:" + ("socket" if o[0] == _sock(case) else "header"))
         out.append("proto:" + o[1] + ("" if o[1] == _proto(case) else "(changed)"))
     out.append("candidates accepted by is_valid_ip:%d" % min(len(impl["valid"]), 6))
     out.append("candidates refused:%d" % min(len(impl["cands"]) - len(impl["valid"]), 6))
